@@ -450,6 +450,10 @@ impl BloomFilter {
         }
 
         let num_words = num_longs as usize;
+        // a non-empty image carries the whole bit array: check before allocating it
+        if !is_empty && num_words.saturating_mul(8) > cursor.remaining().saturating_sub(8) {
+            return Err(Error::insufficient_data("bit_array"));
+        }
         let mut bit_array = vec![0u64; num_words].into_boxed_slice();
         let num_bits_set;
 
